@@ -14,6 +14,11 @@ SHAPES = [[3,0,2,1],[0,2],[2,0],[0,0],[1,3],[0],[2],[],[0,1,0,0,2]]
 
 
 def translator_tie():
+    with vlib.lock("gen"):
+        return _translator_tie()
+
+
+def _translator_tie():
     src = os.path.join(vlib.REPO, "npstructures", "raggedshape.py")
     gen = vlib.COQ / "Gen" / "K_view.v"
     rc, out = vlib.sh(["/venv/bin/python", str(vlib.ROOT / "tools" / "translate.py"), src, str(gen) + ".new"])
